@@ -261,6 +261,121 @@ theorem C06_snihost_model_verdict_ok (sites : List Casket.VHost.Site) (cfgs : Li
             have := C06_clientauth_sni_host_agree sites cfgs r name i c hs hc hauth hon
             simp [this]
 
+/-- Handshake level (MODEL of crypto/tls + certmagic, tied to real handshakes only by the
+exploring stream `c06.handshake`): the modelled handshake always satisfies the handshake judge —
+no handshake on a set that must be rejected, version within the governing site's range,
+certificate request iff that site demands one, that site's certificate when found by name. -/
+theorem C06_handshake_model_verdict_ok (aesni : Bool) (raw : List Cfg) (sni : Bytes) (cmin cmax : Nat)
+    (la : Option Bytes) : hsVerdict aesni raw sni la (handshake aesni raw sni cmin cmax la) = "ok" := by
+  have hfail : ∀ (h : ∀ i b, pipeline aesni raw sni la ≠ .cfg i b), handshake aesni raw sni cmin cmax la = .fail := by
+    intro h
+    unfold handshake
+    cases hp : pipeline aesni raw sni la with
+    | cfg i b => exact absurd hp (h i b)
+    | _ => rfl
+  unfold hsVerdict
+  by_cases hdom : inDomain raw = true
+  · simp only [hdom, Bool.not_true, Bool.false_eq_true, if_false]
+    by_cases hmix : mixed raw = true
+    · obtain ⟨n, hn⟩ := pipeline_mixed aesni raw sni la hmix
+      rw [hfail (by intro i b; rw [hn]; simp)]
+      simp [hmix, hsInvalid]
+    · simp only [hmix, if_false]
+      by_cases hdis : raw.all (!·.enabled) = true
+      · rw [hfail (by intro i b; rw [pipeline_plain aesni raw sni la hdis]; simp)]
+        simp [hdis, hsInvalid]
+      · simp only [hdis, if_false]
+        have hen : raw.all (·.enabled) = true := by
+          rw [List.all_eq_true]
+          intro c hc
+          cases hce : c.enabled with
+          | true => rfl
+          | false =>
+            exfalso
+            apply hmix
+            unfold mixed
+            simp only [Bool.and_eq_true, List.any_eq_true, Bool.not_eq_true']
+            refine ⟨?_, ⟨c, hc, hce⟩⟩
+            apply Classical.byContradiction
+            intro hno
+            apply hdis
+            rw [List.all_eq_true]
+            intro d hd
+            cases hde : d.enabled with
+            | false => rfl
+            | true => exact absurd ⟨d, hd, hde⟩ hno
+        have hne : raw ≠ [] := by
+          intro h; apply hdis; rw [h]; rfl
+        by_cases hca : caMissing raw = true
+        · obtain ⟨n, hn⟩ := pipeline_missing_ca aesni raw sni la hen hne hca
+          rw [hfail (by intro i b; rw [hn]; simp)]
+          simp [hca, hsInvalid]
+        · simp only [hca, if_false]
+          have hca' : caMissing raw = false := by simpa using hca
+          by_cases hconf : conflicting aesni raw = true
+          · obtain ⟨n, hn⟩ := C06_incompatible_same_name_rejected aesni raw sni la hdom hen hca' hconf
+            rw [hfail (by intro i b; rw [hn]; simp)]
+            simp [hconf, hsInvalid]
+          · simp only [hconf, if_false]
+            have hconf' : conflicting aesni raw = false := by simpa using hconf
+            by_cases hname : mapKey (normalizedName sni) = []
+            · simp [hname]
+            · simp only [hname, if_false, Bool.false_eq_true]
+              unfold handshake
+              cases hp : pipeline aesni raw sni la with
+              | cfg i b =>
+                simp only []
+                have hnn : normalizedName sni ≠ [] := by
+                  intro h; rw [h] at hname; exact hname rfl
+                simp only [hnn, if_false]
+                cases hcert : certFor raw (normalizedName sni) with
+                | none => rfl
+                | some san =>
+                  simp only []
+                  by_cases hv : min cmax b.maxV < max cmin b.minV
+                  · rw [if_pos hv]
+                  · rw [if_neg hv]
+                    by_cases hcbc : min cmax b.maxV < tls12 ∧ (!(b.ciphers.any fun x => cbcECDSA.contains x)) = true
+                    · rw [if_pos hcbc]
+                    · rw [if_neg hcbc]
+                      cases hw : wanted raw sni la with
+                      | none => rfl
+                      | some j =>
+                        simp only []
+                        obtain ⟨hij, c, hc, hb⟩ := C06_sni_most_specific aesni raw sni la hdom hen hne hca' hconf' i b hp
+                        have := hij j hw
+                        subst this
+                        rw [hc]
+                        simp only []
+                        subst hb
+                        have h1 : ¬ min cmax (effective aesni c).maxV < (effective aesni c).minV := by omega
+                        have h2 : ¬ (effective aesni c).maxV < min cmax (effective aesni c).maxV := by omega
+                        have h3 : (((effective aesni c).clientAuth != 0) != (c.clientAuth != 0)) = false := by
+                          simp [effective]
+                        simp only [h1, h2, h3, if_false, Bool.false_eq_true]
+                        by_cases hk : mapKey c.hostname = []
+                        · simp [hk]
+                        · -- found by name: the certificate is the site's
+                          have hwk : (specKey raw (normalizedName sni)).bind (fun k => lastIdx raw k 0) = some i := by
+                            unfold wanted at hw
+                            simpa [hnn] using hw
+                          cases hsk : specKey raw (normalizedName sni) with
+                          | none => rw [hsk] at hwk; cases hwk
+                          | some k =>
+                            rw [hsk] at hwk
+                            simp only [Option.bind_some] at hwk
+                            obtain ⟨_, c', hc', hkc⟩ := lastIdx_spec hwk
+                            simp only [Nat.sub_zero] at hc'
+                            rw [hc] at hc'
+                            cases hc'
+                            have hkne : k ≠ [] := by rw [← hkc]; exact hk
+                            have hsan := certFor_eq_key hname hcert hsk hkne
+                            have hself := mapKey_eq_self hk
+                            rw [hself] at hkc
+                            simp [hsan, hkc]
+              | _ => rfl
+  · simp [hdom]
+
 /-- The defaults of the model are the ones in the source (regenerated on every run). -/
 theorem C06_defaults_regenerated :
     Casket.Generated.defaultCiphers = defaultCiphers ∧
